@@ -156,6 +156,8 @@ def field_variants(cls, typ, quant, name):
         return vs
     if typ == 'operator':
         return [('Add', ast.Add)]
+    if typ == 'boolop':
+        return [('Or', ast.Or), ('And', ast.And)]
     if typ == 'expr_context':
         return [('Load', ast.Load), ('Store', ast.Store), ('Del', ast.Del)]
     return None
